@@ -25,6 +25,7 @@ type gen struct {
 	pfx     string
 	longP   float64 // probability that text() returns a long text
 	longMax int     // its size in clusters, at most
+	multi   bool    // programs of many steps: no inputs that make the text grow by orders of magnitude per step
 }
 
 func (g *gen) emit(kind string, args ...string) {
@@ -49,6 +50,9 @@ var stableClusters = []string{
 	"\U0001D11E",                               // 4-byte
 	"\U0001F44D\U0001F3FD",                     // emoji + modifier
 	"ß",                                   // sharp s (ToUpper one-to-one in Go)
+	"\U0001F3F4\U000E0067\U000E0062\U000E0065\U000E006E\U000E0067\U000E007F", // England flag: tag characters U+E00xx share their low 16 bits with ASCII g b e n
+	"a\U000E0101",                         // variation selector supplement: low 16 bits = U+0101
+	"ā",                                    // … and U+0101 itself
 	"\uFFFD",                              // a literal, well-formed REPLACEMENT CHARACTER (3 bytes)
 	"ǅ", "ⅲ", "ⓐ",                         // Lt / Nl / So code points that ToUpper changes although they are not Ll
 }
@@ -58,9 +62,9 @@ var stableClusters = []string{
 // consonants, a ZWJ chain of 17–24 emoji, 33 Prepend characters before a letter
 func (g *gen) giantCluster() string {
 	var sb strings.Builder
-	switch g.r.Intn(4) {
-	case 0:
-		sb.WriteString([]string{"a", "e", "\U0001F469"}[g.r.Intn(3)])
+	switch g.r.Intn(5) {
+	case 0, 4:
+		sb.WriteString([]string{"a", "\U0001F469", "\U0001F469"}[g.r.Intn(3)])
 		for i := 0; i < 33+g.r.Intn(38); i++ {
 			sb.WriteString([]string{"\u0301", "\u0308", "\u0323"}[g.r.Intn(3)])
 		}
@@ -86,6 +90,31 @@ func (g *gen) giantCluster() string {
 	return sb.String()
 }
 
+// a text of n clusters each of which has five or more code points (ZWJ families, keycaps with
+// marks, jamo runs, letters with stacked marks): windows sized "a few code points per character" are
+// too small here
+func (g *gen) denseText(n int) string {
+	var sb strings.Builder
+	for i := 0; i < n; i++ {
+		switch g.r.Intn(5) {
+		case 0:
+			sb.WriteString("\U0001F468\u200d\U0001F469\u200d\U0001F467\u200d\U0001F466")
+		case 1:
+			sb.WriteString("\u1100\u1100\u1161\u1161\u11a8\u11a8")
+		case 2:
+			sb.WriteString("e\u0301\u0308\u0323\u0301\u0308")
+		case 3:
+			sb.WriteString("\u0915\u094d\u200d\u093c\u093e\u0903")
+		default:
+			sb.WriteString("\U0001F469\U0001F3FD\u200d\U0001F4BB\ufe0f\u0301")
+		}
+		if g.chance(0.08) {
+			sb.WriteString(" ")
+		}
+	}
+	return sb.String()
+}
+
 // a run of 34–90 regional indicators (17+ flags, sometimes an odd half at the end)
 func (g *gen) flagRun() string {
 	var sb strings.Builder
@@ -105,8 +134,8 @@ var wsAll = []string{" ", " ", " ", "\t", " ", "　", " ", "\r\n", "\v"}
 
 // "--" and "||" overlap themselves: "a---" holds one separator and a stray "-", and
 // strings.Count/HasSuffix-style shortcuts disagree with strings.Split there
-var lineSeps = []string{"\n", "\n", "\n", "\r\n", "|", "<br>", "·\n", "--", "||", "\uFFFD"}
-var paraSeps = []string{"\n\n", "\n\n", "\n\n", "\r\n\r\n", "\n--\n", "<P>\n</P>", "||", "¶", "\n\n> ", " <<\n\n"}
+var lineSeps = []string{"\n", "\n", "\n", "\r\n", "|", "<br>", "·\n", "--", "||", "\uFFFD", " ", "  "}
+var paraSeps = []string{"\n\n", "\n\n", "\n\n", "\r\n\r\n", "\n--\n", "<P>\n</P>", "||", "¶", "\n\n> ", " <<\n\n", " <fi\u0301n> ", "\U0001F1E9\U0001F1EA\n\U0001F1EA\U0001F1F8"}
 
 // mode: 0 = stable only, 1 = mostly stable with some unstable, 2 = ascii letters only,
 // 3 = ASCII only with CR LF among the whitespace (the one multi-rune ASCII cluster: any
@@ -134,8 +163,8 @@ func (g *gen) word(mode int, maxLen int) string {
 		n += g.r.Intn(12)
 	}
 	var sb strings.Builder
-	if (mode == 0 || mode == 1) && g.chance(0.012) {
-		if g.chance(0.5) {
+	if (mode == 0 || mode == 1) && g.chance(0.025) {
+		if g.chance(0.6) {
 			return g.giantCluster()
 		}
 		return g.flagRun()
@@ -268,6 +297,19 @@ func (g *gen) text(mode int, lineSep, paraSep string) string {
 		return g.line(mode, 8)
 	case 4:
 		return lineSep + paraSep + g.line(mode, 3) + paraSep + lineSep
+	case 5:
+		if g.chance(0.3) {
+			// a line separator right after a paragraph separator, then a character that attaches to
+			// whatever precedes it (mark, ZWJ, spacing mark, or LF after a CR separator)
+			att := []string{"\u0301", "\u200d", "\u093e", "\n"}[g.r.Intn(4)]
+			return g.line(mode, 2) + paraSep + lineSep + att + g.line(mode, 2) + paraSep + att + "z"
+		}
+	case 6:
+		if g.chance(0.3) {
+			// the same multi-line paragraph in first, middle and last position
+			p := g.para(mode, lineSep, 3)
+			return p + paraSep + p + paraSep + g.line(mode, 2) + paraSep + p
+		}
 	}
 	np := 1 + g.r.Intn(4)
 	ps := make([]string, np)
@@ -327,7 +369,7 @@ func (g *gen) width() int {
 	if g.chance(0.08) {
 		return g.r.Intn(5) - 3
 	}
-	if g.chance(0.015) {
+	if !g.multi && g.chance(0.015) {
 		return 130 + g.r.Intn(500) // wider than any fixed padding buffer
 	}
 	return g.r.Intn(46)
@@ -385,6 +427,12 @@ func (g *gen) opts(mode int) (rosed.Options, string, string) {
 		o.IndentStr = "» "
 	}
 	o.TableCharSet = g.charset()
+	if g.multi && strings.TrimLeft(o.LineSeparator, " ") == "" && o.LineSeparator != "" {
+		// with a blank as line separator every word is a line, and Align/Justify multiply the text
+		// by the width at every step
+		o.LineSeparator = "\n"
+		ls = o.LineSeparator
+	}
 	if mode == 3 { // keep every byte of text and options below 0x80
 		if o.LineSeparator == "·\n" {
 			o.LineSeparator = "\r\n"
@@ -583,6 +631,12 @@ func (g *gen) groupProbe() {
 		for _, r := range []int{math.MinInt32, math.MaxInt32, -(1 << 20), 1 << 21} {
 			g.emit("probe", strconv.Itoa(r))
 		}
+		for r := 0; r <= 0xFFFF; r++ { // all shadow pairs
+			for _, k := range []int{1, 2, 0xE, 0x10} {
+				g.emit("probe", strconv.Itoa(r+k*0x10000))
+				g.emit("probe", strconv.Itoa(r))
+			}
+		}
 		return
 	}
 	for r := 0; r < 0x3200; r++ {
@@ -593,6 +647,20 @@ func (g *gen) groupProbe() {
 	}
 	for _, r := range classEdges() {
 		g.emit("probe", strconv.Itoa(r))
+	}
+	// shadow pairs, back to back in one process: a supplementary code point and the BMP code point
+	// with the same low 16 bits (a class cache keyed on too few bits answers the second with the
+	// class of the first), in both orders, for every code point where a class changes
+	for _, r := range classEdges() {
+		if r < 0 || r > 0xFFFF {
+			continue
+		}
+		for _, k := range []int{1, 2, 0xE, 0x10} {
+			s := r + k*0x10000
+			g.emit("probe", strconv.Itoa(s))
+			g.emit("probe", strconv.Itoa(r))
+			g.emit("probe", strconv.Itoa(s))
+		}
 	}
 	// every range edge of the source tables +-1 is hit by the translator's validation; here: edges of
 	// the reference tables are covered by the random sample only statistically
@@ -672,8 +740,32 @@ func (g *gen) groupChars(n int) {
 		if g.chance(0.1) {
 			t = g.dirty(t)
 		}
+		special := false
+		if g.chance(0.03) {
+			// long and dense: more than 2048 bytes, more than four code points per character
+			t = g.denseText(110 + g.r.Intn(150))
+			special = true
+		} else if g.chance(0.03) {
+			// a character far longer than 32 code points early in a longer text
+			t = g.word(2, 3) + g.giantCluster() + g.word(2, 4) + " " + g.giantCluster() + strings.Repeat(g.word(2, 6)+" ", 40+g.r.Intn(40))
+			special = true
+		}
 		cc := clusterCount(t)
 		var step string
+		if special {
+			a, b := g.r.Intn(12), g.r.Intn(12)
+			switch g.r.Intn(3) {
+			case 0:
+				step = fmt.Sprintf("chars,0,%d,%d", a, a+b)
+			case 1:
+				step = fmt.Sprintf("charsto,0,%d", 1+a)
+			default:
+				step = fmt.Sprintf("charsfrom,0,%d", a)
+			}
+			g.emit("prog", strings.Join([]string{g.editStep(t, o), step, "charcount,0", "string,1", "commit,1", "charcount,1",
+				fmt.Sprintf("insert,0,%d,%s", 1+a, encText("|")), fmt.Sprintf("delete,0,%d,%d", a, a+1), fmt.Sprintf("overtype,0,%d,%s", a, encText("xy"))}, ";"))
+			continue
+		}
 		switch g.r.Intn(3) {
 		case 0:
 			step = fmt.Sprintf("chars,0,%s,%s", encInt(g.pos(cc)), encInt(g.pos(cc)))
@@ -719,6 +811,22 @@ func (g *gen) groupCommit(n int) {
 		mode := g.modeFor()
 		o, ls, ps := g.opts(mode)
 		t := g.text(mode, ls, ps)
+		if g.chance(0.02) {
+			// a selection of 64–400 multi-byte characters, cut down to a prefix of itself, then counted
+			// and addressed from the end (anything remembered about the big selection is stale now)
+			nsel := 70 + g.r.Intn(330)
+			var sb strings.Builder
+			for sb.Len() < 3*(nsel+20) {
+				sb.WriteString(g.word(0, 6))
+				sb.WriteString(" ")
+			}
+			t = "é" + sb.String()
+			k := 1 + g.r.Intn(40)
+			cut := []string{fmt.Sprintf("delete,1,%d,End", k), fmt.Sprintf("charsto,1,%d", k)}[g.r.Intn(2)]
+			g.emit("prog", strings.Join([]string{g.editStep(t, o), fmt.Sprintf("chars,0,%d,%d", g.r.Intn(5), 5+nsel), "charcount,1", cut,
+				"charcount,2", "delete,2,-1,End", fmt.Sprintf("overtype,2,-1,%s", encText("Z")), "string,2", "commit,2", "string,5", "commit,5"}, ";"))
+			continue
+		}
 		st := []string{g.editStep(t, o)}
 		cur := 0
 		depth := 1 + g.r.Intn(4)
@@ -893,19 +1001,37 @@ func (g *gen) groupLayout(n int, which string) {
 			g.emit("prog", g.editStep(t, edOpts)+";"+step)
 		}
 		var step string
+		// numeric coincidences: a width equal to the length of a line (under the Editor's or the call's
+		// separators), or one that a very long word fills exactly after its hyphenated pieces
+		wd := g.width()
+		if g.chance(0.06) {
+			sep := ls
+			if g.chance(0.5) && edOpts.LineSeparator != "" {
+				sep = edOpts.LineSeparator
+			}
+			lines := strings.Split(t, sep)
+			wd = clusterCount(lines[g.r.Intn(len(lines))])
+		}
+		if which == "wrap" && g.chance(0.02) {
+			w := 2 + g.r.Intn(40)
+			k := (255 + w - 2) / (w - 1) // smallest k with 1 + k(w-1) >= 256
+			L := 1 + (k+g.r.Intn(3))*(w-1)
+			t = g.line(mode, 2) + " " + strings.Repeat("x", L) + " " + g.line(mode, 2)
+			wd = w
+		}
 		switch which {
 		case "collapse":
 			step = "collapse,0," + g.optsArg(o)
 		case "wrap":
-			step = fmt.Sprintf("wrap,0,%d,%s", g.width(), g.optsArg(o))
+			step = fmt.Sprintf("wrap,0,%d,%s", wd, g.optsArg(o))
 		case "justify":
-			step = fmt.Sprintf("justify,0,%d,%s", g.width(), g.optsArg(o))
+			step = fmt.Sprintf("justify,0,%d,%s", wd, g.optsArg(o))
 		case "align":
 			al := g.r.Intn(4)
 			if g.chance(0.05) {
 				al = []int{-1, 4, 17}[g.r.Intn(3)]
 			}
-			step = fmt.Sprintf("align,0,%d,%d,%s", al, g.width(), g.optsArg(o))
+			step = fmt.Sprintf("align,0,%d,%d,%s", al, wd, g.optsArg(o))
 		case "indent":
 			step = fmt.Sprintf("indent,0,%d,%s", g.r.Intn(5)-1, g.optsArg(o))
 		}
@@ -984,6 +1110,12 @@ func (g *gen) groupDefTable(n int) {
 			if g.chance(0.05) {
 				defs[j][0] = ""
 			}
+		}
+		if nd > 1 && g.chance(0.03) {
+			defs[g.r.Intn(nd)][0] = strings.Repeat(g.word(2, 7), 25+g.r.Intn(12)) // 130+ clusters
+		}
+		if nd > 0 && g.chance(0.03) {
+			defs[g.r.Intn(nd)][1] = " " + ls + " " + ls // a definition made of separators only
 		}
 		edOpts := o
 		arg := g.optsArg(o)
@@ -1205,6 +1337,15 @@ func (g *gen) relWord(t *relText, maxLen int) {
 	n := 1 + g.r.Intn(maxLen)
 	if g.chance(0.1) {
 		n += g.r.Intn(10)
+	}
+	if g.chance(0.02) {
+		// one letter 34–70 times: under the substitution a run of that many flags, jamo syllables …
+		c := relSrc[g.r.Intn(len(relSrc))]
+		for i := 0; i < 34+g.r.Intn(37); i++ {
+			t.parts = append(t.parts, c)
+			t.sub = append(t.sub, true)
+		}
+		return
 	}
 	for i := 0; i < n; i++ {
 		t.parts = append(t.parts, relSrc[g.r.Intn(len(relSrc))])
@@ -1495,9 +1636,9 @@ func cmdGen(group, tier string, seed int64) int {
 	case "A-wrap", "A-justify", "A-align", "A-collapse", "A-indent", "A-lines", "A-apply", "A-para", "A-chars", "A-edit":
 		g.longP, g.longMax = 0.002, 2000
 	case "A-commit", "A-options2":
-		g.longP, g.longMax = 0.001, 900
+		g.longP, g.longMax, g.multi = 0.001, 900, true
 	case "POOL", "Z-prog":
-		g.longP, g.longMax = 0.02, 900 // few programs, many steps each
+		g.longP, g.longMax, g.multi = 0.02, 900, true // few programs, many steps each
 	}
 	switch group {
 	case "G-class":
